@@ -312,6 +312,7 @@ func runC10(r *mc.Run) {
 	// whose module version / SVN select every position in it
 	c10ModuleIdentityShapes(r)
 	c10LevelComponentShapes(r)
+	c10IdentityFieldLengths(r)
 	c10RootCrlPoints(r)
 	c10CertificateNames(r)
 
@@ -892,6 +893,64 @@ func c10LevelComponentShapes(r *mc.Run) {
 	})
 	r.SectionDone(mc.Section{Name: "level-component-shapes", Evaluations: int64(done) * 2, Exhaustive: done == len(jobs),
 		Note: fmt.Sprintf("%d x %d component list lengths x module version {0,1,3} x matching level follows {yes,no}", len(lens), len(lens))})
+}
+
+// c10IdentityFieldLengths: correctly signed QE identities / TCB Infos whose value and mask members have every pair of
+// lengths around the field's size (a check that sizes one of them by the other indexes the fixed-size report field).
+func c10IdentityFieldLengths(r *mc.Run) {
+	type job struct {
+		field string
+		a, b  int
+		val   byte
+	}
+	var jobs []job
+	pair := func(field string, lens []int) {
+		for _, a := range lens {
+			for _, b := range lens {
+				for _, v := range []byte{0x00, 0xff} {
+					jobs = append(jobs, job{field, a, b, v})
+				}
+			}
+		}
+	}
+	pair("qe.attributes", []int{0, 1, 15, 16, 17, 32, 64})
+	pair("qe.miscselect", []int{0, 1, 3, 4, 5, 8})
+	pair("module.attributes", []int{0, 1, 7, 8, 9, 16})
+	for _, l := range []int{0, 1, 31, 32, 33, 48, 64} {
+		jobs = append(jobs, job{"qe.mrsigner", l, 0, 0xab}, job{"module.mrsigner", l + 16, 0, 0xab})
+	}
+	done := r.Parallel(len(jobs), func(i int) {
+		j := jobs[i]
+		id := fmt.Sprintf("identity-field-lengths/%s/value=%d,mask=%d,fill=%02x", j.field, j.a, j.b, j.val)
+		if !r.Want(id) {
+			return
+		}
+		w := world.Honest("T")
+		hx := func(n int) string { return strings.Repeat(fmt.Sprintf("%02x", j.val), n) }
+		switch j.field {
+		case "qe.attributes":
+			w.QeID.Attributes, w.QeID.AttributesMask = hx(j.a), hx(j.b)
+		case "qe.miscselect":
+			w.QeID.Miscselect, w.QeID.MiscselectMask = hx(j.a), hx(j.b)
+		case "qe.mrsigner":
+			w.QeID.Mrsigner = hx(j.a)
+		case "module.attributes":
+			w.TcbInfo.TdxModule.Attributes, w.TcbInfo.TdxModule.AttributesMask = hx(j.a), hx(j.b)
+		case "module.mrsigner":
+			w.TcbInfo.TdxModule.Mrsigner = hx(j.a)
+		}
+		w.Finish()
+		raw := w.Raw()
+		for _, lvl := range []int{world.L1, world.L2} {
+			o := w.Options(lvl)
+			c10Call(r, id, "verify.RawTdxQuote/"+lvlName[lvl], nil, func() error { return verify.RawTdxQuote(raw, o) })
+		}
+		if q, err := safeToProto(raw); err == nil {
+			o2 := w.Options(world.L1)
+			c10Call(r, id, "verify.TdxQuote/L1", nil, func() error { return verify.TdxQuote(q, o2) })
+		}
+	})
+	r.SectionDone(mc.Section{Name: "identity-field-lengths", Evaluations: int64(done) * 3, Exhaustive: done == len(jobs)})
 }
 
 // c10RootCrlPoints: the trusted root names TWO CRL distribution points and each answers independently with one of:
